@@ -86,11 +86,9 @@ static bool applyContract(State &S, const CallBase *CB, const std::vector<Effect
     i128 olo, ohi; offsetBounds(S, p, olo, ohi);
     ByteCell any; any.cs.set(); any.prov = provByName(e.prov);
     eraseScalars(D, olo, ohi + nhi);
-    for (i128 o = olo; o < ohi + nhi; o++) {
-      if (o >= (i128)D.bytes.size()) { joinCell(D.rest, any); break; }
-      if (o < 0) continue;
-      if (olo == ohi && o < olo + nlo) D.bytes[(size_t)o] = any; else joinCell(D.bytes[(size_t)o], any);
-    }
+    i128 cap = (i128)1 << 40;
+    if (olo == ohi) { D.fillRange(olo, olo + std::min(nlo, cap), any); if (nhi > nlo) D.joinRange(olo + nlo, olo + std::min(nhi, cap), any); }
+    else D.joinRange(olo, ohi + std::min(nhi, cap), any);
   }
   finishCall(S, CB, ret);
   return true;
@@ -233,7 +231,7 @@ bool modelCall(State &S, const CallBase *CB, const std::string &name, std::vecto
     const Region &R = S.regions[sp.reg];
     i128 olo, ohi; offsetBounds(S, sp, olo, ohi);
     if (olo != ohi) { finishCall(S, CB, Val::range(64, ConstantRange::getNonEmpty(APInt(64, 0), APInt(64, 1ULL << 62)), P_OTHER)); return true; }
-    i128 lim = R.gv ? (i128)R.sizeHi : (i128)R.rd().bytes.size();
+    i128 lim = R.gv ? (i128)R.sizeHi : R.rd().scanLimit();
     i128 lo = -1, hi = -1; uint8_t prov = 0;
     for (i128 i = olo; i < lim; i++) {
       ByteCell c = readByte(S, R, i); prov |= c.prov;
@@ -257,7 +255,7 @@ bool modelCall(State &S, const CallBase *CB, const std::string &name, std::vecto
     unsigned ch = (unsigned)(cv.constVal().getZExtValue() & 0xff);
     const Region &R = S.regions[sp.reg];
     i128 olo, ohi; offsetBounds(S, sp, olo, ohi);
-    i128 lim = R.gv ? (i128)R.sizeHi : (i128)R.rd().bytes.size();
+    i128 lim = R.gv ? (i128)R.sizeHi : R.rd().scanLimit();
     if (olo != ohi) { Val r = sp; r.r = ConstantRange::getNonEmpty(APInt(64, (uint64_t)olo, true), APInt(64, (uint64_t)lim)); r.root = -1; r.maybenull = true; finishCall(S, CB, r); return true; }
     // positions where ch may be found before the (definite) end
     i128 first = -1, last = -1, end = -1; bool mustFind = false;
@@ -291,7 +289,7 @@ bool modelCall(State &S, const CallBase *CB, const std::string &name, std::vecto
     if (sp.k != Val::PTR || sp.reg < 0) { alarm(S, "MODEL", CB, "strtoul: untracked string"); finishCall(S, CB, Val::top(64)); return true; }
     const Region &R = S.regions[sp.reg];
     i128 olo, ohi; offsetBounds(S, sp, olo, ohi);
-    i128 lim = R.gv ? (i128)R.sizeHi : (i128)R.rd().bytes.size();
+    i128 lim = R.gv ? (i128)R.sizeHi : R.rd().scanLimit();
     std::bitset<256> dig; for (int c = '0'; c <= '9'; c++) dig.set(c);
     std::bitset<256> lead; for (unsigned char c : std::string(" \t\n\v\f\r+-")) lead.set(c);
     Val res = Val::top(64, P_SETTING);
@@ -358,6 +356,143 @@ bool modelCall(State &S, const CallBase *CB, const std::string &name, std::vecto
 }
 
 // ---- interpreter -----------------------------------------------------------------
+static bool valEq(const Val &a, const Val &b) {
+  if (a.k != b.k) return false;
+  if (a.k == Val::FN) return a.fn == b.fn;
+  if (a.k == Val::UNK) return true;
+  if (a.k == Val::PTR && (a.reg != b.reg || a.maybenull != b.maybenull)) return false;
+  if (a.k == Val::INT && (a.w != b.w || a.hascs != b.hascs || (a.hascs && a.cs != b.cs))) return false;
+  return a.r == b.r && a.root == b.root && a.rk == b.rk && a.prov == b.prov;
+}
+
+static uint64_t regionHash(const RegionData &D) {
+  if (D.hvalid) return D.hcache;
+  uint64_t h = 1469598103934665603ULL;
+  auto mix = [&](uint64_t x) { h ^= x; h *= 1099511628211ULL; };
+  for (auto &c : D.bytes) { mix(c.prov); for (int w = 0; w < 4; w++) mix(((const uint64_t *)&c.cs)[w]); }
+  for (auto &kv : D.sparse) { mix((uint64_t)kv.first); mix(kv.second.prov); for (int w = 0; w < 4; w++) mix(((const uint64_t *)&kv.second.cs)[w]); }
+  mix(D.rest.prov); for (int w = 0; w < 4; w++) mix(((const uint64_t *)&D.rest.cs)[w]);
+  for (auto &kv : D.scalars) {
+    mix((uint64_t)kv.first); mix(kv.second.first); const Val &v = kv.second.second; mix(v.k); mix((uint64_t)v.reg); mix((uint64_t)v.root);
+    if (!v.r.isFullSet() && !v.r.isEmptySet()) { mix(v.r.getLower().getLimitedValue()); mix(v.r.getUpper().getLimitedValue()); }
+  }
+  D.hcache = h; D.hvalid = true;
+  return h;
+}
+
+static uint64_t memHash(const State &S) {
+  uint64_t h = 1469598103934665603ULL;
+  auto mix = [&](uint64_t x) { h ^= x; h *= 1099511628211ULL; };
+  for (auto &R : S.regions) {
+    if (R.gv && R.gv->isConstant()) continue;
+    mix(R.live);
+    if (!R.d) continue;
+    mix(regionHash(*R.d));
+  }
+  for (auto &r : S.roots) { mix((uint64_t)r.lo); mix((uint64_t)r.hi); }
+  mix(S.errnoSet); if (S.errnoSet && S.errnoVal.k == Val::INT && S.errnoVal.r.isSingleElement()) mix(S.errnoVal.r.getSingleElement()->getLimitedValue());
+  mix(S.alarms.size());
+  return h;
+}
+
+static Val widenVal(const Val &o, const Val &n) {
+  if (valEq(o, n)) return n;
+  if (o.k != n.k) return n.k == Val::INT ? Val::top(n.w, o.prov | n.prov) : Val::unk();
+  if (n.k == Val::INT) {
+    if (o.w != n.w) return Val::top(n.w, o.prov | n.prov);
+    Val v = Val::top(n.w, o.prov | n.prov);
+    if (!o.r.isFullSet() && !n.r.isFullSet() && !o.r.isEmptySet() && !n.r.isEmptySet() && !o.r.isWrappedSet() && !n.r.isWrappedSet()) {
+      APInt lo = APIntOps::umin(o.r.getUnsignedMin(), n.r.getUnsignedMin());
+      APInt ohi = o.r.getUnsignedMax(), nhi = n.r.getUnsignedMax();
+      // growing upper bound -> max; shrinking lower bound -> 0
+      APInt hi = nhi.ugt(ohi) ? APInt::getMaxValue(n.w) : ohi;
+      if (n.r.getUnsignedMin().ult(o.r.getUnsignedMin())) lo = APInt(n.w, 0);
+      v.r = ConstantRange::getNonEmpty(lo, hi + 1);
+      v.kb = rangeKB(v.r);
+    }
+    if (o.hascs && n.hascs) { v.hascs = true; v.cs = o.cs | n.cs; }
+    return v;
+  }
+  if (n.k == Val::PTR) {
+    if (o.reg != n.reg) return Val::unk();
+    Val v = n; v.root = -1; v.kb = KnownBits(64); v.maybenull = o.maybenull || n.maybenull; v.prov = o.prov | n.prov;
+    if (o.r.isFullSet() || n.r.isFullSet()) { v.r = ConstantRange::getFull(64); return v; }
+    APInt lo = APIntOps::smin(o.r.getSignedMin(), n.r.getSignedMin());
+    APInt hi = n.r.getSignedMax().sgt(o.r.getSignedMax()) ? APInt::getSignedMaxValue(63).zext(64) : o.r.getSignedMax();
+    if (n.r.getSignedMin().slt(o.r.getSignedMin())) lo = APInt::getSignedMinValue(63).sext(64);
+    v.r = ConstantRange::getNonEmpty(lo, hi + 1);
+    return v;
+  }
+  return n;
+}
+
+// ---- liveness (SSA values live on entry to each block), computed lazily per function
+static std::map<const Function *, std::map<const BasicBlock *, std::set<const Value *>>> LiveIn;
+static const std::set<const Value *> &liveIn(const BasicBlock *B) {
+  const Function *F = B->getParent();
+  auto it = LiveIn.find(F);
+  if (it == LiveIn.end()) {
+    auto &L = LiveIn[F];
+    bool changed = true;
+    auto isTracked = [](const Value *v) { return isa<Instruction>(v) || isa<Argument>(v); };
+    while (changed) {
+      changed = false;
+      for (auto bi = F->getBasicBlockList().rbegin(); bi != F->getBasicBlockList().rend(); ++bi) {
+        const BasicBlock &BB = *bi;
+        std::set<const Value *> live;
+        for (const BasicBlock *Su : successors(&BB)) {
+          for (const Value *v : L[Su]) if (!(isa<PHINode>(v) && cast<Instruction>(v)->getParent() == Su)) live.insert(v);
+          for (auto &I : *Su) { auto *phi = dyn_cast<PHINode>(&I); if (!phi) break; const Value *in = phi->getIncomingValueForBlock(&BB); if (isTracked(in)) live.insert(in); }
+        }
+        for (auto ii = BB.rbegin(); ii != BB.rend(); ++ii) {
+          const Instruction &I = *ii;
+          live.erase(&I);
+          if (isa<PHINode>(&I)) { live.insert(&I); continue; }   // phis are defined at block entry: count them as live-in
+          for (const Use &U : I.operands()) if (isTracked(U.get())) live.insert(U.get());
+        }
+        if (live != L[&BB]) { L[&BB] = live; changed = true; }
+      }
+    }
+    it = LiveIn.find(F);
+  }
+  return it->second[B];
+}
+
+static uint64_t valHash(const Val &v) {
+  uint64_t h = 0x9e3779b97f4a7c15ULL * (v.k + 1);
+  auto mix = [&](uint64_t x) { h ^= x + 0x9e3779b97f4a7c15ULL + (h << 6) + (h >> 2); };
+  mix(v.w); mix((uint64_t)v.reg); mix(v.maybenull); mix((uint64_t)v.root); mix((uint64_t)v.rk); mix(v.prov); mix((uint64_t)(uintptr_t)v.fn);
+  if (v.k == Val::INT || v.k == Val::PTR) { if (v.r.isFullSet()) mix(1); else if (v.r.isEmptySet()) mix(2); else { mix(v.r.getLower().getLimitedValue()); mix(v.r.getUpper().getLimitedValue()); } }
+  if (v.hascs) for (int w = 0; w < 4; w++) mix(((const uint64_t *)&v.cs)[w]);
+  return h;
+}
+
+static std::set<std::pair<const BasicBlock *, uint64_t>> SeenStates;   // per cell (cleared in main)
+
+static uint64_t stateHash(const State &S, const BasicBlock *at) {
+  uint64_t h = memHash(S);
+  auto mix = [&](uint64_t x) { h ^= x; h *= 1099511628211ULL; };
+  for (size_t fi = 0; fi < S.stack.size(); fi++) {
+    const Frame &F = S.stack[fi];
+    mix((uint64_t)(uintptr_t)F.callsite);
+    uint64_t acc = 0;
+    if (fi + 1 == S.stack.size()) {
+      for (const Value *v : liveIn(at)) { auto it = F.regs.find(v); if (it != F.regs.end()) acc += valHash(it->second) * ((uint64_t)(uintptr_t)v | 1); }
+    } else {
+      // caller frames: values live into the block of the pending call plus values defined in it
+      const BasicBlock *cb = F.bb;
+      for (const Value *v : liveIn(cb)) { auto it = F.regs.find(v); if (it != F.regs.end()) acc += valHash(it->second) * ((uint64_t)(uintptr_t)v | 1); }
+      for (auto &I : *cb) { auto it = F.regs.find(&I); if (it != F.regs.end()) acc += valHash(it->second) * ((uint64_t)(uintptr_t)&I | 1); }
+    }
+    mix(acc);
+  }
+  mix(S.nW > 0); mix(S.wroteReport);
+  for (auto &e : S.events) for (char c : e) mix((uint64_t)c);
+  return h;
+}
+
+// returns false if the state is subsumed by an earlier arrival at the same header (path can stop)
+static bool enterBlockW(State &S, BasicBlock *to);
 static void enterBlock(State &S, BasicBlock *to) {
   Frame &F = S.stack.back();
   BasicBlock *from = F.bb;
@@ -373,10 +508,66 @@ static void enterBlock(State &S, BasicBlock *to) {
   F.visits[to]++;
 }
 
+static bool seenBefore(State &S, BasicBlock *to);
+static bool enterBlockW(State &S, BasicBlock *to) {
+  Frame &F0 = S.stack.back();
+  BasicBlock *from = F0.bb;
+  bool hot = F0.forks[to] > CFG.widenAfter || F0.forks[from] > CFG.widenAfter;
+  if (!hot && CFG.frameForkWiden > 0 && F0.visits[to] > 0) {
+    // a loop header in a frame that has already forked many times on data (not on the loop test):
+    // widen so that the per-iteration states converge instead of multiplying
+    int tot = 0; for (auto &kv : F0.forks) tot += kv.second;
+    if (tot > CFG.frameForkWiden) hot = true;
+  }
+  enterBlock(S, to);
+  if (!hot) {
+    if (CFG.dedupe && S.fresh > 0 && to->hasNPredecessorsOrMore(2) && S.alarms.empty()) { S.fresh--; if (seenBefore(S, to)) { S.dedup = true; return false; } }
+    return true;
+  }
+  Frame &F = S.stack.back();
+  std::vector<const Value *> phis;
+  for (auto &I : *to) { if (!isa<PHINode>(&I)) break; phis.push_back(&I); }
+  uint64_t mh = memHash(S);
+  auto it = F.snaps.find(to);
+  std::vector<Val> cur;
+  for (auto *p : phis) cur.push_back(F.regs[p]);
+  if (it == F.snaps.end()) { F.snaps[to] = {cur, mh}; return true; }
+  auto &old = it->second;
+  bool same = old.second == mh && old.first.size() == cur.size();
+  std::vector<Val> wid;
+  bool ptrHot = F.visits[to] > CFG.ptrWidenAfter;
+  for (size_t i = 0; i < cur.size(); i++) {
+    // pointer phis (buffer walks with a decided bound) are widened only after many iterations
+    Val w = (i < old.first.size() && (cur[i].k != Val::PTR || ptrHot)) ? widenVal(old.first[i], cur[i]) : cur[i];
+    if (i >= old.first.size() || !valEq(w, old.first[i])) same = false;
+    wid.push_back(w);
+  }
+  if (same) return false;     // fixpoint reached: an identical state was already continued from here
+  for (size_t i = 0; i < phis.size(); i++) F.regs[phis[i]] = wid[i];
+  F.snaps[to] = {wid, mh};
+  if (CFG.dedupe && S.alarms.empty() && seenBefore(S, to)) { S.dedup = true; return false; }
+  return true;
+}
+
+// cross-path deduplication at loop headers / merge blocks: an identical abstract state (live values of
+// all frames, memory, roots, errno, events) already continued from this block on another path
+static bool seenBefore(State &S, BasicBlock *to) {
+  uint64_t h = stateHash(S, to);
+  if (getenv("XAI_TRACE_DEDUP")) {
+    errs() << "[dedup] " << to->getParent()->getName() << ":" << to->getName() << " h=" << h << " mem=" << memHash(S) << " nregions=" << S.regions.size() << " regs:";
+    const Frame &F = S.stack.back();
+    for (const Value *v : liveIn(to)) { auto it = F.regs.find(v); if (it != F.regs.end()) errs() << " " << v->getName() << "=" << valHash(it->second) % 100000; }
+    errs() << "\n";
+  }
+  return !SeenStates.insert({to, h}).second;
+}
+
 // back-propagate a refined value of V to the values it was computed from
+static void refineLoadedCell(State &S, const Value *V, const Val &nv);
 static void backprop(State &S, const Value *V, const Val &nv, int depth = 0) {
   auto *I = dyn_cast<Instruction>(V);
   if (!I || depth > 6 || nv.k != Val::INT) return;
+  if (isa<LoadInst>(I)) { refineLoadedCell(S, I, nv); return; }
   Frame &F = S.stack.back();
   if (auto *ci = dyn_cast<CastInst>(I)) {
     const Value *src = ci->getOperand(0);
@@ -417,17 +608,29 @@ static void refineLoadedCell(State &S, const Value *V, const Val &nv) {
   const Value *X = V;
   while (auto *ci = dyn_cast<CastInst>(X)) X = ci->getOperand(0);
   auto *li = dyn_cast<LoadInst>(X);
-  if (!li || !nv.hascs) return;
+  if (!li || nv.k != Val::INT) return;
+  if (!li->getType()->isIntegerTy(8)) return;
   Val p = getVal(S, li->getPointerOperand());
   if (p.k != Val::PTR || p.reg < 0) return;
   Region &R = S.regions[p.reg];
   if (R.gv && R.gv->isConstant()) return;
   i128 lo, hi; offsetBounds(S, p, lo, hi);
   if (lo != hi || lo < 0) return;
-  // only sound if the cell has not been overwritten since the load: the load is in the same block right before (clang -O0 pattern)
-  if (li->getParent() != S.stack.back().bb) return;
-  for (auto it = li->getIterator(); &*it != &*S.stack.back().it; ++it) if (it->mayWriteToMemory() && &*it != li) return;
-  if (lo < (i128)R.rd().bytes.size()) { RegionData &D = R.w(); D.bytes[(size_t)lo].cs &= nv.cs; }
+  if (!R.readonly) {
+    // only sound if the cell has not been overwritten since the load: the load is in the same block right before (clang -O0 pattern)
+    if (li->getParent() != S.stack.back().bb) return;
+    for (auto it = li->getIterator(); &*it != &*S.stack.back().it; ++it) if (it->mayWriteToMemory() && &*it != li) return;
+  }
+  // value set of the (possibly widened) register, projected to the byte
+  Val cur = getVal(S, li);
+  std::bitset<256> allow; 
+  if (cur.k != Val::INT) return;
+  if (cur.hascs) allow = cur.cs; else { for (int i = 0; i < 256; i++) if (cur.r.contains(APInt(8, i))) allow.set(i); }
+  RegionData &D = R.w();
+  bool tracked = lo < (i128)D.bytes.size() || D.sparse.count((int64_t)lo);
+  if (!tracked) return;
+  ByteCell c = D.get(lo); c.cs &= allow;
+  if (c.cs.any()) D.setStrong(lo, c);
 }
 
 static bool assumeCond(State &S, const Value *cond, bool truth) {
@@ -501,6 +704,7 @@ static bool splitHole(State &S, const Value *cond, bool truth, State &extra) {
   return true;
 }
 
+static uint64_t GlobalSteps = 0;
 struct Engine {
   std::vector<State> work;
   std::vector<State> done;
@@ -518,6 +722,10 @@ struct Engine {
   void run(State S) {
     while (true) {
       if (S.aborted) { done.push_back(std::move(S)); return; }
+      if (getenv("XAI_TRACE") && (++GlobalSteps % 200000) == 0) {
+        Instruction *TI = &*S.stack.back().it;
+        errs() << "[trace] steps=" << GlobalSteps << " work=" << work.size() << " done=" << paths << " depth=" << S.stack.size() << " at " << TI->getFunction()->getName() << ":" << lineOf(TI) << " pathsteps=" << S.steps << " seen=" << SeenStates.size() << "\n";
+      }
       if (++S.steps > CFG.maxSteps) { alarm(S, "BUDGET", nullptr, "step budget exceeded"); S.aborted = true; S.abortMsg = "budget"; done.push_back(std::move(S)); return; }
       Frame &F = S.stack.back();
       Instruction *I = &*F.it;
@@ -592,21 +800,24 @@ struct Engine {
         continue;
       }
       if (auto *br = dyn_cast<BranchInst>(I)) {
-        if (br->isUnconditional()) { if (!loopOk(S, br->getSuccessor(0), I)) continue; enterBlock(S, br->getSuccessor(0)); continue; }
+        if (br->isUnconditional()) { if (!loopOk(S, br->getSuccessor(0), I)) continue; if (!enterBlockW(S, br->getSuccessor(0))) { S.aborted = true; S.abortMsg = "infeasible"; } continue; }
         Val c = getVal(S, br->getCondition());
         int t = (c.k == Val::INT && c.isConst()) ? (c.constVal().isZero() ? 0 : 1) : -1;
         if (t < 0) {
+          S.stack.back().forks[I->getParent()]++;
+          S.fresh = 64;
           State T = S;
           { State X; if (splitHole(S, br->getCondition(), true, X)) { work.push_back(std::move(X)); }
             State Y; if (splitHole(T, br->getCondition(), false, Y)) { work.push_back(std::move(Y)); } }
           bool f1 = assumeCond(S, br->getCondition(), true), f0 = assumeCond(T, br->getCondition(), false);
-          if (f0 && f1) { if (loopOk(T, br->getSuccessor(1), I)) { enterBlock(T, br->getSuccessor(1)); } work.push_back(std::move(T)); t = 1; }
+          if (f0 && f1) { bool keep = true; if (loopOk(T, br->getSuccessor(1), I)) { keep = enterBlockW(T, br->getSuccessor(1)); } if (keep) work.push_back(std::move(T)); t = 1; }
           else if (f1) t = 1; else if (f0) { S = std::move(T); t = 0; }
           else { S.aborted = true; S.abortMsg = "infeasible"; continue; }
         }
         BasicBlock *to = br->getSuccessor(t ? 0 : 1);
         if (!loopOk(S, to, I)) continue;
-        enterBlock(S, to); continue;
+        if (!enterBlockW(S, to)) { S.aborted = true; S.abortMsg = "infeasible"; }
+        continue;
       }
       if (auto *sw = dyn_cast<SwitchInst>(I)) {
         Val c = getVal(S, sw->getCondition());
